@@ -77,7 +77,8 @@ char g_cstr_buf[1];
                  g_file.current_position_ <= g_file.size_)
 #define WF_FS (WF_MAP && WF_DISK && WF_FILE)
 #define OTHERS_UNTOUCHED (gkey == g_file.path_ || (HAS_gkey == g_old_has && VAL_gkey == g_old_val))
-#define GHOST_PINNED (g_old_has == HAS_gkey && g_old_val == VAL_gkey)
+/* the ghost snapshot of an OTHER file's entry; nothing is claimed about the operated file's own entry through gkey */
+#define GHOST_PINNED (gkey == g_file.path_ || (g_old_has == HAS_gkey && g_old_val == VAL_gkey))
 
 /* ---------------- assumed contracts of callees outside C46 (listed in check.json "trusted") ------------------ */
 struct FileSystemDiskExt* Extendable_Disk__extension(struct Extendable_Disk* self)
@@ -200,9 +201,6 @@ void File__seek2(struct File* self, long long offset, int origin)
 unsigned long long File__write(struct File* self, unsigned long long size, _Bool write_inside)
     __CPROVER_requires(self == &g_file && WF_FS && vf_exc == 0 && GHOST_PINNED && size <= BIG &&
                        g_file.current_position_ + size <= BIG)
-#ifdef EXCLUDE_FINDINGS /* class of the recorded finding: overwriting write strictly inside the file */
-    __CPROVER_requires(write_inside || g_file.current_position_ == g_file.size_)
-#endif
     __CPROVER_assigns(FS_FRAME)
     __CPROVER_ensures(vf_exc == 0)                                                          /*@ write_does_not_abort */
     __CPROVER_ensures(__CPROVER_return_value <= size)                                       /*@ write_at_most_requested */
@@ -249,15 +247,19 @@ int File__unlink(struct File* self)
 void File__move(struct File* self, vf_str fullpath)
     __CPROVER_requires(self == &g_file && WF_MAP && WF_DISK && g_file.local_disk_ == &g_disk && vf_exc == 0 &&
                        g_dst_has == HAS_new && g_dst_val == VAL_new && g_old_has == HAS_file && g_old_val == VAL_file)
-#ifdef EXCLUDE_FINDINGS /* class of the recorded finding: destination path already stored (and not the source itself) */
-    __CPROVER_requires(!HAS_new || g_newpath == g_file.path_ || !HAS_file)
-#endif
-    __CPROVER_assigns(vf_exc, g_cstr_src, g_map.n, __CPROVER_object_whole(g_ent))
+    __CPROVER_assigns(vf_exc, g_cstr_src, g_ext.used_size_, g_map.n, __CPROVER_object_whole(g_ent))
     __CPROVER_ensures(vf_exc == 0)
     __CPROVER_ensures(WF_MAP)  /*@ move_keeps_map_wellformed */
     __CPROVER_ensures(WF_DISK) /*@ move_keeps_used_equal_total */
     __CPROVER_ensures(N == __CPROVER_old(g_map.n) ||
-                      (g_old_has && !HAS_file && HAS_new)) /*@ move_only_renames */;
+                      (g_old_has && !HAS_file && HAS_new)) /*@ move_only_renames */
+    __CPROVER_ensures(!(g_old_has && !HAS_file) || (HAS_new && VAL_new == g_old_val))
+    /*@ moved_file_keeps_its_size_under_the_new_name */
+    __CPROVER_ensures(!(g_old_has && !HAS_file) ||
+                      g_ext.used_size_ == __CPROVER_old(g_ext.used_size_) - (g_dst_has ? g_dst_val : 0ULL))
+    /*@ move_gives_back_exactly_the_overwritten_destination */
+    __CPROVER_ensures((g_old_has && !HAS_file) || g_ext.used_size_ == __CPROVER_old(g_ext.used_size_))
+    /*@ move_without_rename_keeps_used_size */;
 
 #include "gen.c"
 
@@ -347,7 +349,7 @@ void harness(void)
   VF_CANARY_POINT;
 }
 #endif
-#if defined(H_write) || defined(H_write_outside_finding)
+#ifdef H_write
 void harness(void)
 {
   setup();
@@ -371,7 +373,7 @@ void harness(void)
   VF_CANARY_POINT;
 }
 #endif
-#if defined(H_move) || defined(H_move_outside_finding)
+#ifdef H_move
 void harness(void)
 {
   setup();
